@@ -256,4 +256,47 @@ theorem FO_lost_after_reload_asWritten (c : Cfg) (es : List Ev) :
 
 end FileOut
 
+/-! ## filter -/
+namespace Filter
+
+/-- (i) one reload: the unit uses the new filter name and holds exactly the links of the new configuration. -/
+theorem Filter_adopts (s : St) (c : Cfg) :
+    (step s (.reload c)).name = c.name ∧ (step s (.reload c)).sources = c.sources.map (·, s.gen + 1) ∧
+      ∀ u t, ((step (step s (.reload c)) (.eos u t)).out = s.out ++ [t] ↔ c.sources.contains u = true) := by
+  refine ⟨rfl, rfl, ?_⟩
+  intro u t
+  by_cases h : u ∈ c.sources <;> simp [step, h]
+
+/-- (i)+(ii), every history of notices and reloads: what is passed on is the reference output — a notice is
+    passed on iff its upstream is a source of the configuration in force, in order, once; the filter name is
+    that of the last load. No site of the filter unit deviates: no variant. -/
+theorem Filter_history (c : Cfg) (es : List Ev) :
+    (run (init c) es).out = spec c es ∧ (run (init c) es).name = (cfgAfter c es).name := by
+  have := run_spec c (init c) ⟨rfl, rfl⟩ es
+  exact ⟨by simpa [init] using this.1, this.2.2⟩
+
+example : (run (init ⟨1, [0, 1]⟩) [.eos 0 5, .eos 2 6, .reload ⟨2, [1, 2]⟩, .eos 0 7, .eos 2 8]).out = [5, 8] := by decide
+
+/-- (iii) a reload of the configuration in force changes nothing that is passed on. -/
+theorem Filter_identical_noop (c : Cfg) (es1 es2 : List Ev) :
+    (run (init c) (es1 ++ .reload (cfgAfter c es1) :: es2)).out = (run (init c) (es1 ++ es2)).out := by
+  rw [(Filter_history c _).1, (Filter_history c _).1, spec_append, spec_append]
+  simp [spec]
+
+end Filter
+
+/-! ## null-out -/
+namespace NullOut
+
+/-- After every history of reports and reloads the target's links are those of the last load (or of the start
+    configuration), all pointing at the gates of that load; a report shows exactly these. -/
+theorem Null_sources_history (srcs : List Nat) (es : List Ev) :
+    (run (init srcs) es).sources = (lastSources srcs es).map (·, loads es) := by
+  have := (run_sources srcs (init srcs) rfl es).1
+  simpa [init] using this
+
+example : (run (init [0, 2]) [.report, .reload [1], .report]).sources = [(1, 1)] := by decide
+
+end NullOut
+
 end Rotonda.ReconfUnits
